@@ -1,10 +1,13 @@
 """C11 -- linked references resolve exactly to their symbols: value/layout/frame clause
-of every relocation class against its specification row; symbol value lookup; the
-linker's per-relocation patching."""
+of every relocation class against its specification row (for every representable value the
+patched field decodes to V(S, A, P) and no other bit changes), the complementary clause
+that a value which is NOT representable never links silently (otherwise the patched field
+cannot decode to V), symbol value lookup and the linker's per-relocation patching."""
 from pyvc.engine import Contract
-from contracts import relocrows as RR, relocspec as RS
+from contracts import relocrows as RR, relocspec as RS, c11link
 
-CONTRACTS = RR.value_contracts("C11")
+CONTRACTS = RR.value_contracts("C11") + RR.reject_contracts("C11") + c11link.CONTRACTS
 ASSUMED = ["specification rows (contracts/relocspec.py) are the ISA meaning of each relocation type (T5); rows marked structure-only "
            "take the layout from the token class and the formula from the class itself"]
 NOT_COVERED = ["objdump-level decoding of whole instructions", "relocation classes without a row: %s" % sorted(RS.NO_ROW)]
+KNOWN_HELPERS = {"row_accepts": RS.row_accepts}
